@@ -1,6 +1,7 @@
 package main
 
 import (
+	"os"
 	"fmt"
 	"go/constant"
 	"go/token"
@@ -704,6 +705,9 @@ func runC06(c *Ctx) {
 		}
 	}
 
+	// ---------- R8 count guards refuse only what cannot fit ----------
+	checkCountGuards(c, "R8")
+
 	// ---------- R6 decode cursors are threaded ----------
 	{
 		n := 0
@@ -1199,6 +1203,155 @@ func checkAttrLadders(c *Ctx, rule string, sftpOnly bool) {
 		wantSz := map[int64]int64{1: 8, 2: 8, 4: 4, 8: 8, 0x80000000: 4}
 		for k, w := range wantSz {
 			c.check(sizes[k] == w, rule, fmt.Sprintf("Attributes.Len flag %#x", k), p.Pos(ln.Pos()), fmt.Sprintf("%d bytes", sizes[k]), fmt.Sprintf("Attributes.Len counts %d bytes for flag %#x, the encoding uses %d", sizes[k], k, w))
+		}
+	}
+}
+
+// checkCountGuards (C06.R8): a decoder that sizes an allocation by a count from the wire refuses counts that cannot
+// fit (C08).  Such a guard must not refuse anything that does fit, or bytes the other codec (and this codec's own
+// encoder) produce are rejected: on every refusing edge of a guard on the count, "count >= 0 and count elements of
+// the minimum encoded size fit in the remaining bytes" must be contradictory (linear prover).  The minimum element
+// size is computed from the element decoder's own field sequence (the tokens inside the loop that follows).
+func checkCountGuards(c *Ctx, rule string) {
+	p := c.P
+	w := newZWorld(p)
+	minOf := func(t wtok) int64 {
+		switch t.Prim {
+		case "u8":
+			return 1
+		case "u16":
+			return 2
+		case "u32", "str", "attrs", "bytes":
+			return 4
+		case "u64":
+			return 8
+		}
+		return 0
+	}
+	sites := []struct {
+		name string
+		fn   *ssa.Function
+	}{
+		{"sshfx.NamePacket.UnmarshalPacketBody", p.FuncIn(p.Sshfx, "(*NamePacket).UnmarshalPacketBody")},
+		{"sshfx.Attributes.XXX_UnmarshalByFlags", p.FuncIn(p.Sshfx, "(*Attributes).XXX_UnmarshalByFlags")},
+		{"unmarshalFileStat", p.Func("unmarshalFileStat")},
+	}
+	for _, s := range sites {
+		fn := s.fn
+		if fn == nil {
+			c.missing(rule, s.name)
+			continue
+		}
+		// the allocation sized by the count
+		var mk *ssa.MakeSlice
+		eachInstr(fn, func(in ssa.Instruction) {
+			if m, ok := in.(*ssa.MakeSlice); ok {
+				if _, isConst := constInt(m.Cap); !isConst {
+					mk = m
+				}
+			}
+		})
+		if mk == nil {
+			c.und(rule, s.name+" count guard", p.Pos(fn.Pos()), "no allocation sized by a decoded count")
+			continue
+		}
+		countV := stripConv(mk.Cap)
+		// minimum element size: the decode tokens inside loops of fn
+		var kmin int64
+		for _, t := range seqOf(p, fn, 0) {
+			if t.Loop {
+				kmin += minOf(t)
+			}
+		}
+		if kmin == 0 {
+			c.und(rule, s.name+" count guard", p.Pos(fn.Pos()), "cannot compute the minimum element size")
+			continue
+		}
+		z := w.get(fn)
+		mentions := func(v ssa.Value) bool {
+			found := false
+			var walk func(x ssa.Value, d int)
+			walk = func(x ssa.Value, d int) {
+				if x == nil || d > 6 || found {
+					return
+				}
+				if x == countV || stripConv(x) == countV {
+					found = true
+					return
+				}
+				switch y := x.(type) {
+				case *ssa.BinOp:
+					walk(y.X, d+1)
+					walk(y.Y, d+1)
+				case *ssa.Convert:
+					walk(y.X, d+1)
+				case *ssa.ChangeType:
+					walk(y.X, d+1)
+				case *ssa.UnOp:
+					walk(y.X, d+1)
+				}
+			}
+			walk(v, 0)
+			return found
+		}
+		// remaining length: the numerator of the division in a guard
+		var lenV ssa.Value
+		var findLen func(x ssa.Value, d int)
+		findLen = func(x ssa.Value, d int) {
+			if x == nil || d > 6 {
+				return
+			}
+			switch y := x.(type) {
+			case *ssa.BinOp:
+				if y.Op == token.QUO {
+					if _, ok := constInt(y.Y); ok {
+						lenV = y.X
+						return
+					}
+				}
+				findLen(y.X, d+1)
+				findLen(y.Y, d+1)
+			case *ssa.Convert:
+				findLen(y.X, d+1)
+			}
+		}
+		var guards []*ssa.If
+		for _, b := range fn.Blocks {
+			iff, ok := b.Instrs[len(b.Instrs)-1].(*ssa.If)
+			if !ok || !mentions(iff.Cond) || !(b == mk.Block() || b.Dominates(mk.Block())) {
+				continue
+			}
+			guards = append(guards, iff)
+			findLen(iff.Cond, 0)
+		}
+		if len(guards) == 0 || lenV == nil {
+			c.bad(rule, s.name+" count guard", p.Pos(mk.Pos()), "the count that sizes the allocation is not compared with the remaining bytes")
+			continue
+		}
+		ct, lt := z.term(countV), z.term(lenV)
+		wf := []lin{ct.scale(-1), leq(ct.scale(kmin), lt, 0)} // count >= 0, kmin*count <= remaining
+		for i, g := range guards {
+			blk := g.Block()
+			// the refusing edge is the successor that does not lead to the allocation
+			for si, succ := range blk.Succs {
+				if succ == mk.Block() || succ.Dominates(mk.Block()) || blockReaches(succ, mk.Block()) {
+					continue
+				}
+				// terms first: building them records the facts of divisions and conversions
+				cf := z.condFacts(g.Cond, si == 0)
+				facts := append([]lin{}, z.factsAt(g)...)
+				facts = append(facts, cf...)
+				facts = append(facts, wf...)
+				key := fmt.Sprintf("%s count guard #%d refuses only what cannot fit", s.name, i+1)
+				okI := infeasible(facts)
+				if !okI && os.Getenv("ZDEBUG") != "" && strings.Contains(key, os.Getenv("ZDEBUG")) {
+					for _, f := range facts {
+						fmt.Printf("   F %s\n", f)
+					}
+				}
+				c.check(okI, rule, key, p.Pos(g.Cond.Pos()), fmt.Sprintf("refused ⇒ %d·count > remaining bytes (or count < 0)", kmin),
+					fmt.Sprintf("the guard refuses a count whose elements (at least %d bytes each) fit in the remaining bytes: a well-formed packet that the encoder and the other codec produce is rejected", kmin))
+			}
 		}
 	}
 }
